@@ -14,6 +14,11 @@ use super::{
     registration_span, route_path_span,
 };
 
+thread_local! {
+    /// The number of diagnostics pushed, into any sink, by the current thread.
+    static PUSHED_BY_THIS_THREAD: std::cell::Cell<usize> = const { std::cell::Cell::new(0) };
+}
+
 /// An accumulator for diagnostics.
 ///
 /// The sink can be cheaply cloned, since it's a wrapper around a reference-counted
@@ -37,10 +42,20 @@ impl DiagnosticSink {
     pub fn push<D: miette::Diagnostic + Into<miette::Error>>(&self, diagnostic: D) {
         #[cfg(pavex_verif)]
         rustdoc_processor::verif_sched::yield_point("diagnostic sink");
+        PUSHED_BY_THIS_THREAD.with(|n| n.set(n.get() + 1));
         self.diagnostics
             .lock()
             .expect("The lock around the diagnostic sink was poisoned")
             .push(diagnostic.into());
+    }
+
+    /// The number of diagnostics that the current thread has pushed so far, into any sink.
+    ///
+    /// The sink is shared across threads when crates are processed in parallel:
+    /// comparing two readings of this counter tells you if *your own* work
+    /// reported something in between, no matter what other threads did in the meantime.
+    pub fn pushed_by_current_thread() -> usize {
+        PUSHED_BY_THIS_THREAD.with(|n| n.get())
     }
 
     /// Drain the sink, retrieving all the diagnostics accumulated so far.
